@@ -37,7 +37,7 @@ Proof.
     destruct (m_process cfg (e_mech st) (f_payload f)) as [m'' [e|]]; [intros; inv_step; np|].
     destruct (mech_is_error m''); intros; inv_step; np.
   - destruct (dec_buffer (c_maxsz cfg) b) as [| | |f k]; try discriminate; try (intros; inv_step; np).
-    destruct (parse_cmd f); try (intros; inv_step; np).
+    destruct (parse_cmd f); try destruct (ready_incompatible _ _); try (intros; inv_step; np).
     intros; inv_step. unfold no_panic, cork_out. destruct (c_server cfg); destruct (_ && _); cbn; intuition discriminate.
   - destruct (negb (e_v2_sent st)); try (intros; inv_step; np).
     destruct (dec_buffer (c_maxsz cfg) b) as [| | |f k]; try discriminate; try (intros; inv_step; np).
@@ -47,7 +47,7 @@ Proof.
   - destruct (dec_buffer (c_maxsz cfg) b) as [| | |f k]; try discriminate; try (intros; inv_step; np).
     destruct (f_cmd f).
     + destruct (e_version st) as [[|]|]; try (intros; inv_step; np);
-        destruct (parse_cmd f); intros; inv_step; np.
+        destruct (parse_cmd f); try destruct (ready_incompatible _ _); intros; inv_step; np.
     + destruct (MAX_FRAMES <=? length (e_partial st))%nat; [intros; inv_step; np|].
       destruct (f_more f); intros; inv_step; np.
 Qed.
@@ -135,7 +135,7 @@ Proof.
     destruct (m_process cfg (e_mech st) (f_payload f)) as [m'' [e|]]; [intros; inv_step; cbn in *; discriminate|].
     destruct (mech_is_error m''); intros; inv_step; cbn in *; congruence.
   - destruct (dec_buffer (c_maxsz cfg) b) as [| | |f k]; try discriminate; try (intros; inv_step; cbn in *; discriminate).
-    destruct (parse_cmd f); intros; inv_step; cbn in *; discriminate.
+    destruct (parse_cmd f); try destruct (ready_incompatible _ _); intros; inv_step; cbn in *; discriminate.
   - destruct (negb (e_v2_sent st)); try (intros; inv_step; cbn in *; congruence).
     destruct (dec_buffer (c_maxsz cfg) b) as [| | |f k]; try discriminate; try (intros; inv_step; cbn in *; discriminate).
     destruct (f_cmd f || f_more f); [intros; inv_step; cbn in *; discriminate|].
@@ -143,7 +143,7 @@ Proof.
   - destruct (dec_buffer (c_maxsz cfg) b) as [| | |f k]; try discriminate; try (intros; inv_step; cbn in *; discriminate).
     destruct (f_cmd f).
     + destruct (e_version st) as [[|]|]; try (intros; inv_step; cbn in *; discriminate);
-        destruct (parse_cmd f); intros; inv_step; cbn in *; congruence.
+        destruct (parse_cmd f); try destruct (ready_incompatible _ _); intros; inv_step; cbn in *; congruence.
     + destruct (MAX_FRAMES <=? length (e_partial st))%nat; [intros; inv_step; cbn in *; discriminate|].
       destruct (f_more f); intros; inv_step; cbn in *; congruence.
 Qed.
@@ -205,7 +205,7 @@ Proof.
   - destruct (dec_buffer (c_maxsz cfg) r) as [| | |f k] eqn:E; try discriminate.
     + pose proof (dec_need_bound _ _ E Hm). unfold len in *. lia.
     + exfalso. eapply dec_buffer_no_panic; eauto.
-    + destruct (parse_cmd f); discriminate.
+    + destruct (parse_cmd f); try destruct (ready_incompatible _ _); discriminate.
   - destruct (negb (e_v2_sent st)); [discriminate|].
     destruct (dec_buffer (c_maxsz cfg) r) as [| | |f k] eqn:E; try discriminate.
     + pose proof (dec_need_bound _ _ E Hm). unfold len in *. lia.
@@ -216,7 +216,7 @@ Proof.
     + pose proof (dec_need_bound _ _ E Hm). unfold len in *. lia.
     + exfalso. eapply dec_buffer_no_panic; eauto.
     + destruct (f_cmd f).
-      * destruct (e_version st) as [[|]|]; try discriminate; destruct (parse_cmd f); discriminate.
+      * destruct (e_version st) as [[|]|]; try discriminate; destruct (parse_cmd f); try destruct (ready_incompatible _ _); discriminate.
       * destruct (MAX_FRAMES <=? length (e_partial st))%nat; [discriminate|]. destruct (f_more f); discriminate.
 Qed.
 
